@@ -31,6 +31,11 @@
 (*   "selfp"  s.f(.., s.data()+off, cnt)        where "ptrn" is allowed    *)
 (*   "selfz"  s.f(.., s.c_str()+off)            where "ptr" is allowed     *)
 (*   "selfit" s.f(.., s.begin()+off, s.begin()+off+cnt)  where "itv" is    *)
+(*            ("selfit": const_iterator pair from cbegin(); "selfmit": the   *)
+(*            mutable iterators of begin(); "selfrit": reverse iterators     *)
+(*            over the same characters, which then arrive in reverse order)  *)
+(* Iterator-pair kinds from other containers: "itv" vector const_iterator,  *)
+(* "itl" list, "itp" const CT*, "itpm" CT*, "its" std::basic_string::iterator*)
 (* For these the src field of the call is the descriptor <<>>, <<off,cnt>>,*)
 (* <<off>>, <<off,cnt>>; the characters are those the object held BEFORE   *)
 (* the call (the standard: as if the argument were copied first).          *)
@@ -133,8 +138,19 @@ Proj(k) == LET s == obj[k] IN
      dist  |-> Len(s),                \* end() - begin()
      fwd   |-> s,                     \* *it for it in [begin(), end())
      rev   |-> Rev(s),                \* *it for it in [rbegin(), rend())
-     g     |-> TRUE]                  \* the memory on both sides of the object is untouched
-ProjAll == [o |-> <<Proj(1), Proj(2)>>]
+     g     |-> TRUE,                  \* the memory on both sides of the object is untouched
+     (* round 3: a second, independent route to every observable *)
+     cd    |-> Len(s),                \* cend() - cbegin()
+     rd    |-> Len(s),                \* rend() - rbegin()  (and crend() - crbegin())
+     slen  |-> Len(Before(s, 0)),     \* traits_type::length(c_str()) / std::strlen: the first NUL ends a C string
+     rts   |-> Len(Before(s, 0)),     \* std::basic_string(c_str()).size(): the round trip through a C string
+     rtn   |-> Len(s),                \* std::basic_string(data(), size()).size() with every character equal to data()[i]
+     cp    |-> TRUE,                  \* c_str() = data() (both const) = the non-const data()
+     ib    |-> TRUE,                  \* begin() = cbegin() = data(), end() = cend() = data() + size()
+     rb    |-> TRUE]                  \* rbegin().base() = end(), rend().base() = begin(), likewise crbegin / crend
+(* operator== for all pairs of the two objects (row = left operand) *)
+ProjAll == [o |-> <<Proj(1), Proj(2)>>,
+            eq |-> <<<<TRUE, obj[1] = obj[2]>>, <<obj[2] = obj[1], TRUE>>>>]
 
 ----------------------------------------------------------------------------
 Ok(v)  == [exc |-> "none", val |-> v]
@@ -170,14 +186,19 @@ OutcomeMv(op, k, a, big, newk, mv, okres) ==
 
 TooBig(n) == n = NPOS \/ n > Cap              \* a requested length (npos included) beyond N
 ObjKinds == {"obj", "objm"}
-AliasKinds == {"self", "selfp", "selfz", "selfit"}
+AliasKinds == {"self", "selfp", "selfz", "selfit", "selfmit", "selfrit"}
+SelfItKinds == {"selfit", "selfmit", "selfrit"}
+ItKinds     == {"itv", "itl", "itp", "itpm", "its"}          \* iterator pairs of other containers / arrays
+(* the iterator-range overloads are templates: whatever takes "itv" takes every iterator kind *)
+AllIt(S)    == IF "itv" \in S THEN S \cup ItKinds ELSE S
 (* the overload that takes kind x also takes the aliasing form of x *)
 WithAlias(S) == S \cup (IF "obj" \in S THEN {"self"} ELSE {}) \cup (IF "ptrn" \in S THEN {"selfp"} ELSE {})
-                  \cup (IF "ptr" \in S THEN {"selfz"} ELSE {}) \cup (IF "itv" \in S THEN {"selfit"} ELSE {})
+                  \cup (IF "ptr" \in S THEN {"selfz"} ELSE {}) \cup (IF "itv" \in S THEN SelfItKinds \cup ItKinds ELSE {})
 (* the characters a source denotes: w itself, or - aliasing - a part of the object's own value before the call *)
 Src(k, sk, w) ==
     CASE sk = "self" -> obj[k]
-      [] sk \in {"selfp", "selfit"} -> SubSeq(obj[k], w[1] + 1, w[1] + w[2])
+      [] sk \in {"selfp", "selfit", "selfmit"} -> SubSeq(obj[k], w[1] + 1, w[1] + w[2])
+      [] sk = "selfrit" -> Rev(SubSeq(obj[k], w[1] + 1, w[1] + w[2]))
       [] sk = "selfz" -> Before(SubSeq(obj[k], w[1] + 1, Len(obj[k])), 0)       \* a C string ends at the first NUL
       [] OTHER -> w
 SrcOK(k, sk, w) ==
@@ -185,7 +206,7 @@ SrcOK(k, sk, w) ==
     /\ sk \in {"ptr", "str"} => NulFree(w)
     /\ sk = "ch" => Len(w) = 1
     /\ sk = "self" => w = <<>>
-    /\ sk \in {"selfp", "selfit"} => Len(w) = 2 /\ w[1] \in 0..Len(obj[k]) /\ w[2] \in 0..(Len(obj[k]) - w[1])
+    /\ sk \in {"selfp"} \cup SelfItKinds => Len(w) = 2 /\ w[1] \in 0..Len(obj[k]) /\ w[2] \in 0..(Len(obj[k]) - w[1])
     /\ sk = "selfz" => Len(w) = 1 /\ w[1] \in 0..Len(obj[k])
 MvOK(k, sk, mv) == sk # "objm" => mv = obj[Other(k)]
 
@@ -201,7 +222,7 @@ CtorSub(k, sk, v, p, n) ==
        Outcome("CtorSub", k, [sk |-> sk, src |-> v, pos |-> p, n |-> n], rng,
                ~rng /\ Len(Sub(v, p, Or(n, NPOS))) > Cap, Sub(v, p, Or(n, NPOS)), Void)
 CtorSeq(k, sk, v, mv) ==
-    /\ sk \in {"ptrn", "ptr", "il", "itv", "itl", "str", "obj", "objm"} /\ SrcOK(k, sk, v) /\ MvOK(k, sk, mv)
+    /\ sk \in AllIt({"ptrn", "ptr", "il", "itv", "itl", "str", "obj", "objm"}) /\ SrcOK(k, sk, v) /\ MvOK(k, sk, mv)
     /\ OutcomeMv("CtorSeq", k, [sk |-> sk, src |-> v], Len(v) > Cap, v, mv, Void)
 (* strlen layout only: the object is a view of N+1 cells of caller memory (numpy string); its *)
 (* value is what precedes the first NUL; whatever follows is stale and must never matter.      *)
@@ -425,6 +446,105 @@ GetLine(k, text, delim, rv) ==
        Outcome("GetLine", k, [text |-> text, delim |-> delim, rv |-> rv], FALSE, Len(line) > Cap, line, Void)
 
 ----------------------------------------------------------------------------
+(* Round 3 - behaviour of the component that the sentences of C01 / C02 do not name: formatted stream input and     *)
+(* output in general, json conversion, fixed strings as keys of associative containers, as payloads of variant /   *)
+(* any, and conversions between fixed strings of different capacity / layout / policy.  The definitions are the    *)
+(* standard's for std::basic_string ([string.io], [istream::sentry], [ostream.formatted.reqmts]); a deviation of   *)
+(* the code from these actions is ADVISORY (reported, never a verdict).                                            *)
+IsWS(c)      == c \in WS
+RECURSIVE LeadWS(_), TokLen(_)
+LeadWS(v)    == IF v = <<>> \/ ~IsWS(Head(v)) THEN 0 ELSE 1 + LeadWS(Tail(v))     \* white space a sentry skips
+TokLen(v)    == IF v = <<>> \/ IsWS(Head(v)) THEN 0 ELSE 1 + TokLen(Tail(v))      \* characters up to the next white space
+IoRes(eof, fail, w, rest) == Ok([eof |-> eof, fail |-> fail, w |-> w, rest |-> rest])
+
+(* is >> str.  text: what the stream still holds; w: is.width(); skip: the skipws flag; ok: is.good() before the call; *)
+(* oe: the eofbit observed, which the standard leaves open in exactly one corner (the n-th character stored is also   *)
+(* the last one of the input: whether the implementation looks one character ahead).                                  *)
+(* Result: eofbit, failbit, width() and the number of unread characters after the call.                               *)
+Extract(k, text, w, skip, ok, oe) ==
+    LET a     == [text |-> text, w |-> w, skip |-> skip, ok |-> ok]
+        lead  == IF skip THEN LeadWS(text) ELSE 0
+        rest0 == SubSeq(text, lead + 1, Len(text))
+        tl    == TokLen(rest0)
+        n     == IF w > 0 /\ w < tl THEN w ELSE tl
+        word  == SubSeq(rest0, 1, n)
+        atend == n = Len(rest0)
+        lim   == w > 0 /\ n = w                       \* stopped because width() characters were stored
+    IN
+    \/ ~ok /\ Obs("Extract", k, a, IoRes(FALSE, TRUE, w, Len(text)))                        \* sentry fails: nothing happens
+    \/ ok /\ skip /\ rest0 = <<>> /\ Obs("Extract", k, a, IoRes(TRUE, TRUE, w, 0))          \* sentry meets the end: str unchanged
+    \/ ok /\ ~(skip /\ rest0 = <<>>) /\ n = 0                                               \* str.erase(), nothing extracted
+          /\ Mut("Extract", k, a, <<>>, IoRes(rest0 = <<>>, TRUE, 0, Len(rest0)))
+    \/ ok /\ n > 0 /\ n <= Cap /\ Storable(word) /\ (oe = atend \/ (atend /\ lim))
+          /\ Mut("Extract", k, a, word, IoRes(oe, FALSE, 0, Len(rest0) - n))
+    (* a word longer than N: C02 reads "an operation whose result would be longer than N" (length_error, nothing     *)
+    (* changed); [string.io] reads "n = str.max_size()" characters are extracted.  Both are conforming answers.        *)
+    \/ ok /\ n > Cap /\ Throwing /\ Obs("Extract", k, a, Exc("length_error"))
+    \/ ok /\ n > Cap /\ Storable(SubSeq(rest0, 1, Cap))
+          /\ Mut("Extract", k, a, SubSeq(rest0, 1, Cap), IoRes(FALSE, Cap = 0, 0, Len(rest0) - Cap))
+
+(* getline(is, str, delim) with the state of the stream: characters up to the delimiter (extracted, not stored) *)
+GetLineX(k, text, delim, ok) ==
+    LET a     == [text |-> text, delim |-> delim, ok |-> ok]
+        d     == Or(delim, 10)
+        line  == Before(text, d)
+        found == Has(text, d)
+    IN
+    \/ ~ok /\ Obs("GetLineX", k, a, IoRes(FALSE, TRUE, 0, Len(text)))
+    \/ ok /\ Len(line) <= Cap /\ Storable(line)
+          /\ Mut("GetLineX", k, a, line, IoRes(~found, text = <<>>, 0, IF found THEN Len(text) - Len(line) - 1 ELSE 0))
+    \/ ok /\ Len(line) > Cap /\ Throwing /\ Obs("GetLineX", k, a, Exc("length_error"))
+    \/ ok /\ Len(line) > Cap /\ Storable(SubSeq(text, 1, Cap))                 \* max_size() characters stored: failbit
+          /\ Mut("GetLineX", k, a, SubSeq(text, 1, Cap), IoRes(FALSE, TRUE, 0, Len(text) - Cap))
+
+(* os << str with os.width(w), os.fill(fc), adjustfield adj: padded to the width, width() reset to 0 *)
+Adjusts == {"none", "left", "right", "internal"}
+Put(k, w, fc, adj) ==
+    LET s   == obj[k]
+        pad == IF w > Len(s) THEN w - Len(s) ELSE 0
+        out == IF adj = "left" THEN s \o Fill(pad, fc) ELSE Fill(pad, fc) \o s
+    IN /\ adj \in Adjusts
+       /\ Obs("Put", k, [w |-> w, fill |-> fc, adj |-> adj], Ok([chars |-> out, size |-> Len(out), w |-> 0]))
+
+(* xjson.hpp: to_json gives a json string with the characters; from_json assigns them *)
+JsonOut(k)        == NulFree(obj[k]) /\ Obs("JsonOut", k, NoArg, Ok([chars |-> obj[k], size |-> Len(obj[k]), str |-> TRUE]))
+JsonIn(k, text)   == NulFree(text) /\ Outcome("JsonIn", k, [text |-> text], FALSE, Len(text) > Cap, text, Void)
+
+(* both objects as keys: std::map (operator<) and std::unordered_map (std::hash + operator==).  m[A] = 1; m[B] = 2.  *)
+(* heq: hash(A) = hash(B) as observed; equal strings must have equal hashes, different ones may.                      *)
+MapKey(k, heq) ==
+    LET same == obj[k] = obj[Other(k)] IN
+    /\ same => heq
+    /\ Obs("MapKey", k, NoArg, Ok([msz |-> IF same THEN 1 ELSE 2, mval |-> IF same THEN 2 ELSE 1,
+                                   usz |-> IF same THEN 1 ELSE 2, uval |-> IF same THEN 2 ELSE 1,
+                                   first |-> IF Cmp(obj[k], obj[Other(k)]) <= 0 THEN 1 ELSE 2,    \* which key a std::map lists first
+                                   heq |-> heq]))
+
+(* the object as payload of xtl::variant<int, fs> / xtl::any: copies, moves and re-emplacement keep the contents *)
+PayloadKinds == {"variant_copy", "variant_move", "variant_assign", "variant_emplace", "any_copy", "any_move", "any_assign"}
+Payload(k, kind) == kind \in PayloadKinds /\ Obs("Payload", k, [kind |-> kind], Ok(StrVal(obj[k])))
+
+(* another fixed-string type (dst: "big" 2N+7 characters, silent policy; "strlen" the strlen-sized layout; "field" a    *)
+(* capacity with a separate length field) built from this object, by route "z" c_str(), "pn" (data(), size()), "it"     *)
+(* (begin(), end()), "str" the conversion to std::basic_string; and this object assigned from such a string.            *)
+CrossDsts   == {"big", "strlen", "field"}
+CrossRoutes == {"z", "pn", "it", "str"}
+CrossTo(k, dst, route) ==
+    /\ dst \in CrossDsts /\ route \in CrossRoutes
+    /\ (dst = "strlen" \/ route \in {"z", "str"}) => NulFree(obj[k])
+    /\ Obs("CrossTo", k, [dst |-> dst, route |-> route], Ok(StrVal(obj[k])))
+CrossFrom(k, dst, route, v) ==
+    /\ dst \in CrossDsts /\ route \in CrossRoutes
+    /\ (dst = "strlen" \/ route \in {"z", "str"}) => NulFree(v)
+    /\ Outcome("CrossFrom", k, [dst |-> dst, route |-> route, src |-> v], FALSE, Len(v) > Cap, v, Self)
+
+ExtOps == {"Extract", "GetLineX", "Put", "JsonOut", "JsonIn", "MapKey", "Payload", "CrossTo", "CrossFrom"}
+ExtObservers == {"Put", "JsonOut", "MapKey", "Payload", "CrossTo"}
+(* inputs for the model checker: 1, 2 are characters; 32, 9, 10 white space *)
+ExtTexts == {<<>>, <<32>>, <<1>>, <<1, 2>>, <<32, 1, 2>>, <<1, 32, 2>>, <<1, 2, 1, 2>>, <<32, 9, 1, 2, 1, 2, 32>>, <<1, 10, 2>>, <<10>>,
+             <<1, 2, 1, 2, 1>>, <<2, 2, 10, 1>>}
+
+----------------------------------------------------------------------------
 (* Bounded argument domains for the model checker *)
 Strs(n)  == UNION {[1..m -> Chars] : m \in 0..n}
 Nats     == {p \in PosDom : p >= 0}
@@ -443,7 +563,7 @@ Srcs(k, kinds) == {<<sk, v>> \in kinds \X (Lits \cup {O(k)}) :
 ASrcs(k, kinds) ==
     LET n == Len(obj[k]) IN
       (IF "self" \in kinds THEN {<<"self", <<>>>>} ELSE {})
-      \cup UNION {{<<sk, <<off, cnt>>>> : cnt \in 0..(n - off)} : sk \in kinds \cap {"selfp", "selfit"}, off \in 0..n}
+      \cup UNION {{<<sk, <<off, cnt>>>> : cnt \in 0..(n - off)} : sk \in kinds \cap ({"selfp"} \cup SelfItKinds), off \in 0..n}
       \cup {<<"selfz", <<off>>>> : off \in (IF "selfz" \in kinds THEN 0..n ELSE {})}
 
 (* the object the model checker does not operate on starts with one of the values OtherInit *)
@@ -516,13 +636,23 @@ NextT(k) ==
     \/ C("alias") /\ \E ov \in {"assign", "op"}, x \in ASrcs(k, AliasKinds) : AssignSeq(k, ov, x[1], x[2], O(k)) \/ AppendSeq(k, ov, x[1], x[2])
     \/ C("alias") /\ \E idx \in PosDom, x \in ASrcs(k, {"self", "selfp", "selfz"}) : InsertSeq(k, idx, x[1], x[2])
     \/ C("alias") /\ \E idx \in PosDom, q \in SubDom : InsertSub(k, idx, "self", <<>>, q[1], q[2])
-    \/ C("alias") /\ \E it \in Its(k), x \in ASrcs(k, {"selfit"}) : InsertItSeq(k, it, x[1], x[2])
+    \/ C("alias") /\ \E it \in Its(k), x \in ASrcs(k, SelfItKinds) : InsertItSeq(k, it, x[1], x[2])
+    \/ C("iter") /\ \E x \in Srcs(k, {"itp", "itpm", "its"}) : CtorSeq(k, x[1], x[2], O(k)) \/ AssignSeq(k, "assign", x[1], x[2], O(k)) \/ AppendSeq(k, "append", x[1], x[2])
+    \/ C("iter") /\ \E it \in Its(k), x \in Srcs(k, {"itp", "itpm", "its"}) : InsertItSeq(k, it, x[1], x[2])
+    \/ C("iter") /\ \E r \in Ranges(k), x \in Srcs(k, {"itp", "itpm", "its"}) : ReplaceIt(k, r[1], r[2], x[1], x[2])
     \/ C("alias") /\ \E x \in ASrcs(k, {"self", "selfz"}) : Compare(k, x[1], x[2]) \/ (\E rop \in RelOps : Rel(k, rop, x[1], x[2]))
     \/ C("alias") /\ \E p \in PosDom, n \in PosDom, x \in ASrcs(k, {"self", "selfp", "selfz"}) : Compare1(k, p, n, x[1], x[2]) \/ Replace(k, p, n, x[1], x[2])
     \/ C("alias") /\ \E p \in PosDom, n \in PosDom, q \in SubDom : Compare2(k, p, n, "self", <<>>, q[1], q[2]) \/ ReplaceSub(k, p, n, "self", <<>>, q[1], q[2])
     \/ C("alias") /\ \E r \in Ranges(k), x \in ASrcs(k, AliasKinds) : ReplaceIt(k, r[1], r[2], x[1], x[2])
     \/ C("alias") /\ \E fam \in FindFams, p \in PosD, x \in ASrcs(k, {"self", "selfp", "selfz"}) : Find(k, fam, x[1], x[2], p)
     \/ C("alias") /\ (Concat(k, "self", "self", <<>>, obj[k], O(k)) \/ \E ov \in {"memberself", "freeself"} : Swap(k, ov))
+    \/ C("ext") /\ \E text \in ExtTexts, w \in {0, 1, 2, Cap, Cap + 1}, skip \in BOOLEAN, ok \in BOOLEAN, oe \in BOOLEAN : Extract(k, text, w, skip, ok, oe)
+    \/ C("ext") /\ \E text \in ExtTexts, d \in {DFLT, 2}, ok \in BOOLEAN : GetLineX(k, text, d, ok)
+    \/ C("ext") /\ \E w \in {0, 1, Cap, Cap + 2}, adj \in Adjusts : Put(k, w, 42, adj)
+    \/ C("ext") /\ (JsonOut(k) \/ \E text \in ExtTexts : JsonIn(k, text))
+    \/ C("ext") /\ \E heq \in BOOLEAN : MapKey(k, heq)
+    \/ C("ext") /\ \E kind \in PayloadKinds : Payload(k, kind)
+    \/ C("ext") /\ \E dst \in CrossDsts, route \in CrossRoutes : CrossTo(k, dst, route) \/ (\E v \in Lits : CrossFrom(k, dst, route, v))
     \/ C("nav") /\ \E v \in Strs(Cap) : Storable(v) /\ Mut("Nav", k, NoArg, v, Void)   \* not a call: lets the model checker
                                                                                     \* reach every value (never emitted)
 
@@ -544,7 +674,7 @@ TypeOK ==
 
 FailedChangesNothing == [][last'.res.exc # "none" => obj' = obj]_vars
 ObserverOps == {"At", "Index", "Front", "Back", "Iterate", "Substr", "Copy", "Compare", "Compare1", "Compare2",
-                "Find", "Rel", "ToStd", "StreamOut"}
+                "Find", "Rel", "ToStd", "StreamOut"} \cup ExtObservers
 ObserversPure == [][last'.op \in ObserverOps => obj' = obj]_vars
 ReturnedIteratorInRange == [][(last'.res.exc = "none" /\ last'.op \in {"InsertIt", "InsertItSeq", "EraseIt", "EraseRange"})
                                  => last'.res.val.it \in 0..Len(obj'[last'.k])]_vars
@@ -567,6 +697,20 @@ RefFind(fam, s, v, p) ==
          [] fam = "rfind" -> ScanDown(M, Min(start, n))
          [] fam = "flo"   -> ScanDown(In, Min(start, n - 1))
          [] fam = "flno"  -> ScanDown(NotIn, Min(start, n - 1))
+
+(* laws of the round-3 actions: on the inputs the older actions cover they say the same *)
+ExtLaws == \A text \in ExtTexts :
+    /\ LeadWS(text) + TokLen(SubSeq(text, LeadWS(text) + 1, Len(text))) <= Len(text)
+    /\ (text # <<>> /\ \A i \in 1..Len(text) : ~IsWS(text[i])) => (LeadWS(text) = 0 /\ TokLen(text) = Len(text))    \* StreamIn's domain
+    /\ TokLen(text) = Len(text) \/ IsWS(text[TokLen(text) + 1])
+    /\ \A i \in 1..TokLen(text) : ~IsWS(text[i])
+ExtStep == [][last'.op \in ExtOps /\ last'.res.exc = "none" =>
+                 /\ last'.op \in {"Extract", "GetLineX"} =>
+                        /\ last'.res.val.rest \in 0..Len(last'.a.text)
+                        /\ (last'.res.val.fail /\ last'.a.ok /\ last'.op = "Extract") => (obj'[last'.k] = <<>> \/ obj'[last'.k] = obj[last'.k])
+                        /\ ~last'.a.ok => obj' = obj
+                 /\ last'.op = "Put" => (last'.res.val.size >= last'.a.w /\ last'.res.val.size >= Len(obj[last'.k]))
+                 /\ last'.op \in {"Payload", "CrossTo", "JsonOut"} => last'.res.val.chars = obj[last'.k]]_vars
 
 LawSrcs == Lits \cup {obj[2]}
 Laws == LET s == obj[1] IN
